@@ -8,8 +8,8 @@
 #include <string.h>
 #include <time.h>
 
-enum { P_RESET_OWN, P_SHARE, P_LOCK, P_WEAKFROM, P_WEAKRESET, P_UNIQUE, NPOPS };
-static const char *popname[] = { "reset(own)", "share(own->tmp);reset(tmp)", "lock(w->tmp);get;reset(tmp)", "weak_from(own->w2);weak_reset(w2)", "weak_reset(w)", "unique(own)" };
+enum { P_RESET_OWN, P_SHARE, P_LOCK, P_WEAKFROM, P_WEAKRESET, P_UNIQUE, P_REALLOC, NPOPS };
+static const char *popname[] = { "reset(own)", "share(own->tmp);reset(tmp)", "lock(w->tmp);get;reset(tmp)", "weak_from(own->w2);weak_reset(w2)", "weak_reset(w)", "unique(own)", "alloc(own)" };
 enum { OWN, TMP };
 
 struct tl { cstl_shared_ptr_t own, tmp; cstl_weak_ptr_t w, w2; };
@@ -20,6 +20,7 @@ static struct world {
     int cleared, mem_freed, book_freed;
     void *mem, *book;
     int lock_ok[SX_MAXT], lock_fail[SX_MAXT], uniq_true[SX_MAXT];
+    void *pmem[SX_MAXT]; int pallocs, pcleared;      /* allocations a thread made into its own owning pointer (alloc(own)): each is private to that thread */
 } W;
 
 /* the scenario being run */
@@ -40,6 +41,16 @@ static void on_clear(void *mem, void *priv)
     if (W.cleared > 1) sx_fail("clear callback ran %d times", W.cleared);
     { const sx_block *b = sx_block_of(mem); if (!b || b->freed) sx_fail("clear callback ran on memory that is already freed"); }
     holders_must_be_gone("the managed memory was cleared");
+}
+static void on_clear_private(void *mem, void *priv)
+{
+    int t, hit = 0;
+    (void)priv;
+    W.pcleared++;
+    if (mem == W.mem) sx_fail("the clear callback of a thread's private allocation was called with the shared managed memory");
+    for (t = 0; t < S.nthreads; t++) if (W.pmem[t] == mem) { hit = 1; W.pmem[t] = NULL; }
+    if (!hit) sx_fail("the clear callback of a private allocation was called with %p, which no thread's owning pointer manages (any more)", mem);
+    { const sx_block *b = sx_block_of(mem); if (!b || b->freed) sx_fail("the clear callback of a private allocation ran on memory that is already freed"); }
 }
 static void on_free(const sx_block *b)
 {
@@ -85,6 +96,11 @@ static void body(int t)
         case P_RESET_OWN: drop(t, OWN, &L->own); break;
         case P_SHARE:
             cstl_shared_ptr_share(&L->own, &L->tmp);
+            if (W.pmem[t]) {      /* own manages the thread's private allocation now */
+                if (cstl_shared_ptr_get(&L->tmp) != W.pmem[t]) sx_fail("thread %d: sharing its private allocation yields %p, it manages %p", t, cstl_shared_ptr_get(&L->tmp), W.pmem[t]);
+                cstl_shared_ptr_reset(&L->tmp);
+                break;
+            }
             if (cstl_shared_ptr_get(&L->tmp) != NULL) { W.hold[t][TMP] = 1; touch(t, cstl_shared_ptr_get(&L->tmp)); }
             drop(t, TMP, &L->tmp);
             break;
@@ -110,7 +126,27 @@ static void body(int t)
         }
         case P_WEAKFROM: cstl_weak_ptr_from(&L->w2, &L->own); cstl_weak_ptr_reset(&L->w2); break;
         case P_WEAKRESET: cstl_weak_ptr_reset(&L->w); break;
-        case P_UNIQUE: if (cstl_shared_ptr_unique(&L->own)) W.uniq_true[t]++; break;
+        case P_UNIQUE:
+            if (cstl_shared_ptr_unique(&L->own)) W.uniq_true[t]++;
+            else if (W.pmem[t]) sx_fail("thread %d: the only owner of its private allocation is not unique", t);
+            break;
+        case P_REALLOC: {
+            /* re-targeting: the thread lets go of whatever own manages and makes it manage a new allocation of its own.  The other owners of
+             * the shared memory must be unaffected: the new memory must be a different, live block that nobody else sees. */
+            void *m; const sx_block *b; int u;
+            if (W.hold[t][OWN]) { W.hold[t][OWN] = 0; W.holdgen[t][OWN]++; }
+            cstl_shared_ptr_alloc(&L->own, 16, on_clear_private);
+            m = cstl_shared_ptr_get(&L->own);
+            W.pallocs++;
+            if (m == NULL) { sx_fail("thread %d: alloc(own) left the pointer empty although no allocation failed", t); break; }
+            b = sx_block_of(m);
+            if (!b || b->freed) sx_fail("thread %d: alloc(own) manages memory that is not a live allocation", t);
+            if (m == W.mem && !W.mem_freed) sx_fail("thread %d: alloc(own) handed out the shared managed memory again although it has not been freed", t);
+            for (u = 0; u < S.nthreads; u++) if (u != t && W.pmem[u] == m) sx_fail("thread %d: alloc(own) handed out the memory thread %d's private allocation occupies", t, u);
+            W.pmem[t] = m;
+            memset(m, 0x22, 16);
+            break;
+        }
         }
     }
     /* every thread finally lets go of everything it holds */
@@ -122,6 +158,7 @@ static void at_end(void)
     int i;
     if (W.cleared != 1) sx_fail("at the end the clear callback has run %d times (expected exactly once)", W.cleared);
     if (W.mem_freed != 1) sx_fail("at the end the managed memory has been freed %d times (expected exactly once)", W.mem_freed);
+    if (W.pcleared != W.pallocs) sx_fail("at the end %d private allocations were made and %d were cleared", W.pallocs, W.pcleared);
     for (i = 0; i < sx_nblocks(); i++) if (!sx_block_at(i)->freed) sx_fail("block #%d (%zu bytes) is still allocated after every pointer was reset", i, sx_block_at(i)->size);
 }
 
